@@ -47,14 +47,23 @@ func (f *NthValue) Call(s *slip.Scope, args slip.List, depth int) (result slip.O
 	slip.CheckArgCount(s, depth, f, args, 2, 2)
 	arg1 := slip.EvalArg(s, args, 1, depth+1)
 
-	if values, ok := arg1.(slip.Values); ok {
-		var num slip.Integer
-		if num, ok = args[0].(slip.Integer); !ok {
-			slip.TypePanic(s, depth, "n", args[0], "integer")
+	num, ok := args[0].(slip.Integer)
+	if !ok {
+		slip.TypePanic(s, depth, "n", args[0], "integer")
+	}
+	n := int(num.Int64())
+	switch ta := arg1.(type) {
+	case slip.Values:
+		if 0 <= n && n < len(ta) {
+			result = ta[n]
 		}
-		n := int(num.Int64())
-		if 0 <= n && n < len(values) {
-			result = values[n]
+	case slip.NonLocalExit:
+		// return-from, return or go: control is leaving the form.
+		return arg1
+	default:
+		// A form that returns one object returns one value.
+		if n == 0 {
+			result = arg1
 		}
 	}
 	return
